@@ -1,6 +1,7 @@
 """C17 — provenance metadata (path, line, comments, value lines) matches the source file."""
 import re
-import vlib, grammar, gens, gramlib, trees
+import re
+import vlib, grammar, gens, gramlib, trees, checklib
 from checklib import Scenario
 
 RULE = ("conventional files with comment blocks of any length before keys, trailing comments, multi-line values, sections, "
@@ -8,7 +9,7 @@ RULE = ("conventional files with comment blocks of any length before keys, trail
         "comment before, comment after, value lines) is compared with the meaning the Coq grammar assigns (expected entries: "
         "theorem C02_parse gives line/comments/values, C17_block their relation to the lines of the file); "
         "files with values of several lines in every accepted shape (quoted with text, blanks or a comment behind the closing "
-        "quote; continuation lines with trailing blanks; blank-only lines below an entry) compared with the model; results of layered reads whose later files have or have not any entry (path and extended values through the model); econf_getPath for single files (absolute also for relative names) and \"\" for merged results; distinct by bytes")
+        "quote; continuation lines with trailing blanks; blank-only lines below an entry) compared with the model; the same files parsed from 8 threads at once (each thread its own files; every thread's provenance must equal the model's for the file alone); results of layered reads whose later files have or have not any entry (path and extended values through the model); econf_getPath for single files (absolute also for relative names) and \"\" for merged results; distinct by bytes")
 
 def gen(rng, tier):
     n = 1800 if tier == "quick" else 30000
@@ -88,3 +89,58 @@ def oracle(s, ilines):
 
 def nontrivial(s, mlines):
     return "cbk=x" in mlines[1] if len(mlines) > 1 else False
+
+
+# ---- the same files parsed by several threads at once: line numbers, paths, comments and value lines of every
+# ---- thread's own file must be what they are when the file is parsed alone
+def _thread_sets(scens, rng, tier):
+    single = [s for s in scens if s.cmds and s.cmds[0].startswith("parse 0 x2f")]          # absolute names only: threads share the cwd
+    rng.shuffle(single)
+    k, per, rounds = 8, 12, (6 if tier == "quick" else 60)
+    sets = []
+    for r in range(rounds):
+        chunk = single[r * k * per:(r + 1) * k * per]
+        if len(chunk) < k * per: break
+        sets.append([[c for s in chunk[t * per:(t + 1) * per] for c in (s.cmds[0], "getall 0")] for t in range(k)])
+    return sets
+
+def _run_thread_set(tset):
+    import C18
+    exe, err = vlib.impl_driver("tsan")
+    if exe is None: raise vlib.BuildError(err)
+    want = vlib.run_model(tset)
+    out, rc, se = C18.run_threads(exe, tset)
+    if out is None or rc != 0: return "threaded run ended abnormally: %s %s" % (rc, (se or "")[-600:])
+    got = C18.split_threads(out)
+    noloc = lambda ls: [re.sub(r" line=\d+ file=\S+$", "", l) if l.startswith("rc=") and not l.startswith("rc=0") else l for l in ls]
+    for i in range(len(tset)):
+        kind, det = checklib.judge(Scenario(tset[i]), noloc(want[i]), noloc(got[i]) if i < len(got) else [], None)
+        if kind: return "thread %d of %d: provenance differs from parsing the file alone: %s" % (i, len(tset), det)
+    return None
+
+def extra_check(scens, rng, tier, cov):
+    sets = _thread_sets(scens, rng, tier)
+    cov["threaded_parses"] = sum(len(t) // 2 for ts in sets for t in ts)
+    for tset in sets:
+        det = _run_thread_set(tset)
+        if det:
+            body = "# property C17\n# %s\n# one block per thread; replay: ./check C17 --replay <file> (the failure depends on the interleaving: the replay runs the set up to 20 times)\n" % det.replace("\n", " ")[:1500]
+            for i, c in enumerate(tset): body += "thread %d\n" % i + "\n".join(c) + "\n"
+            return body, det
+    return None
+
+def replay(path):
+    text = open(path).read()
+    if "\nthread 0\n" not in text:
+        import sys
+        return checklib.replay("C17", path, sys.modules[__name__])
+    tset, cur = [], None
+    for ln in text.split("\n"):
+        if ln.startswith("#") or not ln: continue
+        if ln.startswith("thread "): cur = []; tset.append(cur)
+        elif cur is not None: cur.append(ln)
+    for _ in range(20):
+        det = _run_thread_set(tset)
+        if det:
+            print(det[:600]); print("VIOLATION property=C17 replay=%s" % path); return 1
+    print("replay: no violation in 20 runs"); return 0
